@@ -81,7 +81,7 @@ func (e *Engine) decodeInto(l *Loc, bz *T, path string, depth int) {
 	case *types.Struct:
 		for i, f := range l.Fields {
 			fname := u.Field(i).Name()
-			if strings.HasPrefix(fname, "XXX_") || fname == "cachedValue" {
+			if strings.HasPrefix(fname, "XXX_") || fname == "cachedValue" || fname == "compat" {
 				continue
 			}
 			e.decodeInto(f, bz, path+"_"+fname, depth+1)
@@ -181,7 +181,7 @@ func (e *Engine) collectLeaves(v Value, t types.Type, path string, leaves *[]enc
 		}
 		for i := 0; i < u.NumFields(); i++ {
 			fname := u.Field(i).Name()
-			if strings.HasPrefix(fname, "XXX_") || fname == "cachedValue" {
+			if strings.HasPrefix(fname, "XXX_") || fname == "cachedValue" || fname == "compat" {
 				continue
 			}
 			e.collectLeaves(sv.F[i], u.Field(i).Type(), path+"_"+fname, leaves, lens, depth+1)
